@@ -525,8 +525,3 @@ func nil2len(src ssa.Value, mk *ssa.MakeSlice) ssa.Value {
 	}
 	return src
 }
-
-func init() {
-	// development handle for the normaliser rules until they are merged into C02
-	register(&property{ID: "C02", Explanation: "dev", NotDecided: "dev", Rules: []ruleFn{ruleR2_3, ruleR2_4}})
-}
